@@ -16,6 +16,7 @@ CONSTANTS
   MaxTops = 0
   AliasAlpha <- None
   MaxAliases = 0
+  NestedLike = FALSE
   CmdKinds <- FileCmds
 INVARIANT SafeVis
 INVARIANT SafeAccess
